@@ -20,7 +20,7 @@ from . import common, mcommon
 ID = "C13"
 NEEDS_MODEL = False
 LEVEL = "exploration"
-N = {"quick": 1280, "thorough": 40000}
+N = {"quick": 1280, "thorough": 100000}
 
 
 def gen_history(rnd):
